@@ -37,7 +37,8 @@ def cases(draw):
     scale = draw(st.sampled_from([1.0, 1.0, 1.0, 4.0, 12.0]))
     cell = [x * scale for x in cell[:3]] + list(cell[3:])
     # one long axis (layered structures): reflections a few degrees apart on the low rings
-    if fam in ("tetragonal", "hexagonal", "orthorhombic", "monoclinic", "triclinic") and draw(st.sampled_from([0, 0, 1])):
+    if scale == 1.0 and fam in ("tetragonal", "hexagonal", "orthorhombic", "monoclinic", "triclinic") and \
+            draw(st.sampled_from([0, 0, 1])):
         k = 2 if fam in ("tetragonal", "hexagonal") else draw(st.sampled_from([1, 2]))
         cell[k] = cell[k] * draw(st.sampled_from([3.0, 4.7, 6.0]))
     sym = draw(st.sampled_from(CENTRINGS[fam]))
@@ -87,6 +88,38 @@ def check(case, rec=None, allpairs=False):
     nr = len(uc.ringds)
     r1 = case["r1"] % nr
     r2 = r1 if case["r2"] == "same" else case["r2"] % nr
+    if case.get("nearcut"):
+        # two reflections 11.5 - 12.8 degrees apart (|cos| just below the library's collinearity cut of 0.98), the
+        # pair with the smallest d*; the rings are made up to there and the two rings looked up
+        H = np.mgrid[-5:6, -5:6, -5:6].reshape(3, -1).T
+        H = H[np.abs(H).sum(axis=1) > 0]
+        from vf.props.c03 import allowed
+        H = H[allowed(sym, H[:, 0], H[:, 1], H[:, 2])]
+        Gh = H @ B.T
+        dsh = np.linalg.norm(Gh, axis=1)
+        H, Gh, dsh = H[dsh < 4 * dstar[-1]], Gh[dsh < 4 * dstar[-1]], dsh[dsh < 4 * dstar[-1]]
+        Cc = np.abs((Gh / dsh[:, None]) @ (Gh / dsh[:, None]).T)
+        ia, ib = np.nonzero((Cc >= 0.9752) & (Cc < 0.98 - 1e-6))
+        if len(ia) == 0:
+            if rec is not None:
+                rec.exclude("no pair of low-order reflections within 1.3 degrees of the collinearity cut")
+            return []
+        k = int(np.argmin(np.maximum(dsh[ia], dsh[ib])))
+        ha, hb = tuple(int(x) for x in H[ia[k]]), tuple(int(x) for x in H[ib[k]])
+        dsmax = float(max(dsh[ia[k]], dsh[ib[k]])) * 1.01 + rtol
+        ok, e = guard(uc.makerings, dsmax, rtol)
+        if not ok:
+            return [exc_failure("makerings", e)]
+        if len(uc.peaks) > 6000:
+            if rec is not None:
+                rec.exclude("near-cut pair only at a d* with more than 6000 reflections")
+            return []
+        find = lambda h: [q for q, dsr in enumerate(uc.ringds) if h in [tuple(int(x) for x in hh) for hh in uc.ringhkls[dsr]]]
+        fa, fb = find(ha), find(hb)
+        if not fa or not fb:
+            return [fail("nocandidate", "reflections %s / %s below the ring limit %.4f are in no ring" % (ha, hb, dsmax),
+                         mode="rings")]
+        nr, r1, r2 = len(uc.ringds), fa[0], fb[0]
     h1s = [np.array(h) for h in uc.ringhkls[uc.ringds[r1]]]
     h2s = [np.array(h) for h in uc.ringhkls[uc.ringds[r2]]]
     U = np.asarray(case["U"], float)
@@ -194,6 +227,16 @@ def check(case, rec=None, allpairs=False):
                     fails.append(fail("cache", "orient(rings %d,%d) after makerings(%g,%g) differs from a fresh unitcell "
                                       "object; cell %s %s" % (q1, q2, lim2, tol2, np.round(cell, 4).tolist(), sym),
                                       mode="history"))
+                # the same two reflections named the other way round (the pair table of (q1, q2) is cached by now)
+                if ok1 and q1 != q2:
+                    ok3, e3 = guard(uc.orient, q2, gb.copy(), q1, ga.copy(), 0, 1e-7)
+                    if not ok3:
+                        fails.append(exc_failure("orient (rings named in the other order)", e3))
+                    elif not any(equivalent(np.asarray(u, float), UB) for u in uc.UBIlist):
+                        fails.append(fail("truth_missing", "orient(rings %d,%d) after orient(rings %d,%d) on the same "
+                                          "object: none of the %d candidates is equivalent to the generating orientation; "
+                                          "cell %s %s" % (q2, q1, q1, q2, len(uc.UBIlist), np.round(cell, 4).tolist(), sym),
+                                          mode="history"))
                 if fails:
                     break
             if fails:
@@ -288,6 +331,8 @@ def run_shard(rec):
         run_cases(rec, "pairs", REGRESSION, lambda c: check(c, rec, allpairs=True))
     hyp_run(rec, "pairs", cases(), lambda c: check(c, rec, allpairs=not quick),
             max_examples=200 if quick else 2500)
+    hyp_run(rec, "nearcut", cases().map(lambda c: dict(c, nearcut=True, pseudo=False)), lambda c: check(c, rec),
+            max_examples=12 if quick else 150)
     hyp_run(rec, "split", splitcases(), lambda c: check_split(c, rec), max_examples=25 if quick else 300)
 
 
